@@ -24,7 +24,7 @@ type c20Up struct {
 	Text string `json:"text_hex"`
 }
 type c20In struct {
-	Kind int     `json:"kind"` // 0 TermWriter, 1 BufferedTerm (helpers.BuildVTerm(true)), 2 VirtualTerm
+	Kind int     `json:"kind"` // 0 TermWriter, 1 BufferedTerm (helpers.BuildVTerm(true)), 2 VirtualTerm, 3 TermWriter judged on a terminal with the DEC last-column flag
 	Size int     `json:"size"` // VirtualTerm: NewVirtualTermEx(size, 10)
 	Trim bool    `json:"auto_trim"`
 	Cols int     `json:"cols"`
@@ -87,7 +87,7 @@ func c20Run(in c20In) (out c20Out) {
 		texts[i] = string(b)
 	}
 	switch in.Kind {
-	case 0:
+	case 0, 3:
 		t := multiterm.New()
 		for i, u := range in.Ups {
 			t.WriteForLine(u.Line, texts[i])
@@ -203,6 +203,8 @@ func c20Case(in c20In) Case {
 		coq = fmt.Sprintf("cP %d %d %s %s %s", in.Kind, in.Size, B(in.Trim), cols, CoqList(ups))
 	case in.Kind == 0:
 		coq = fmt.Sprintf("cT %s %s %s %s", B(in.Trim), cols, CoqList(ups), q(out.Segs))
+	case in.Kind == 3:
+		coq = fmt.Sprintf("cD %s %s %s %s", B(in.Trim), cols, CoqList(ups), q(out.Segs))
 	case in.Kind == 1:
 		coq = fmt.Sprintf("cB %s %s %s %s", B(in.Trim), cols, CoqList(ups), q(out.Segs))
 	default:
@@ -212,7 +214,7 @@ func c20Case(in c20In) Case {
 	// boundary classes
 	tagset := map[string]bool{}
 	tag := func(t string) { tagset[t] = true }
-	tag([]string{"kind=TermWriter", "kind=BufferedTerm", "kind=VirtualTerm"}[in.Kind])
+	tag([]string{"kind=TermWriter", "kind=BufferedTerm", "kind=VirtualTerm", "kind=TermWriter(DEC margin)"}[in.Kind])
 	if in.Trim {
 		tag("trim=on")
 	} else {
@@ -264,6 +266,10 @@ func c20Case(in c20In) Case {
 		if in.Trim && eff > in.Cols {
 			eff = in.Cols
 		}
+		if in.Kind == 3 && in.Cols >= 1 && eff == in.Cols {
+			// recorded finding: the erase after a text that fills the row blanks its last cell
+			tag("kf:C20-dec-margin")
+		}
 		if p, ok := lastVis[u.Line]; ok {
 			tag("rewrite")
 			if eff < p {
@@ -297,7 +303,7 @@ func c20Case(in c20In) Case {
 		tag("does-not-fit(trim off)")
 	}
 	var tags []string
-	for _, t := range []string{"kind=TermWriter", "kind=BufferedTerm", "kind=VirtualTerm", "trim=on", "trim=off",
+	for _, t := range []string{"kind=TermWriter", "kind=TermWriter(DEC margin)", "kf:C20-dec-margin", "kind=BufferedTerm", "kind=VirtualTerm", "trim=on", "trim=off",
 		"cols<=0", "cols=1", "cols<=10", "cols<=80", "cols<=120", "in-theorem-domain", "does-not-fit(trim off)",
 		"text-not-well-formed", "sgr", "multi-byte", "empty-visible-text", "text=width", "text=width+1", "text>width",
 		"rewrite", "shrinking-rewrite", "jump-up", "gap", "jump-past-max-from-above", "same-line-again", "no-updates"} {
@@ -447,10 +453,15 @@ func c20Lines(r *Rng, n, maxLine int) []int {
 
 func c20Random(r *Rng) c20In {
 	in := c20In{Cols: c20Cols(r), Trim: r.Chance(3, 5)}
-	switch x := r.Intn(10); {
-	case x < 7:
+	switch x := r.Intn(20); {
+	case x < 12:
 		in.Kind = 0
-	case x < 9:
+	case x < 14:
+		in.Kind = 3
+		if in.Cols < 1 {
+			in.Cols = 1
+		}
+	case x < 18:
 		in.Kind = 1
 	default:
 		in.Kind = 2
@@ -570,10 +581,10 @@ func main() {
 		Header: "From Coq Require Import List NArith ZArith String.\nFrom RareV Require Import Corr.C20Case.\nImport ListNotations.\nOpen Scope N_scope. Open Scope string_scope.\n",
 		Rule: "fixed part: every history of at most 2 (quick) / 3 (thorough) updates over lines {0,1,2} and texts {\"\", a, abc, bold ab} through TermWriter at (trim on, width 2) and (trim off, width 3); " +
 			"the trim on every text of length <= 4 (quick) / 5 (thorough) over {a, ESC, '[', '1', 'm'} at widths 1..3 (as VirtualTerm lines); the histories of the package's own tests. " +
-			"seeded part: 70% TermWriter (multiterm.New, os.Stdout redirected to a file, the output of every call recorded separately), 20% BufferedTerm through helpers.BuildVTerm(true), 10% VirtualTerm (NewVirtualTermEx with initial size 0..5, WriteToOutput into a buffer, Get(-1..LineCount), LineCount); " +
+			"seeded part: 60% TermWriter (multiterm.New, os.Stdout redirected to a file, the output of every call recorded separately), 10% TermWriter judged on a reference terminal with the DEC last-column flag without the narrower-than-the-terminal guard (recorded finding C20-dec-margin: tagged when an emitted text is exactly as wide as the terminal), 20% BufferedTerm through helpers.BuildVTerm(true), 10% VirtualTerm (NewVirtualTermEx with initial size 0..5, WriteToOutput into a buffer, Get(-1..LineCount), LineCount); " +
 			"widths 1..120 (weighted to 1..3, 4..12, 80) and occasionally 0/-1, AutoTrim on (60%) / off; 0..40 updates over at most 12 lines in five orders (top-to-bottom redraw, bottom-up, one line hammered, growing frontier with jumps back, random); " +
 			"texts with a chosen number of visible runes aimed at the width (0, width-1, width, width+1, 2*width, random), ASCII and multi-byte runes (2, 3 and 4 byte encodings, U+FFFD, U+10FFFF), SGR sequences with and without a trailing reset, and in 10% of the histories texts outside the theorem's domain (TAB, lone ESC, unterminated sequence, other CSI sequences, invalid UTF-8, C1 controls). " +
-			"The model's and the implementation's per-call outputs are interpreted by the reference terminal of Model/Term.v (with and without ONLCR) and the screens compared after every call; the property's boolean form is evaluated on the implementation's output. " +
+			"The model's and the implementation's per-call outputs are interpreted by the reference terminal of Model/Term.v (with and without ONLCR, idealised and DEC right margin) and the screens compared after every call; the property's boolean form is evaluated on the implementation's output. " +
 			"distinct = distinct (kind, size, trim, width, updates); non-trivial = at least 2 updates and at least one of: a rewrite with a shorter text, a jump upwards, a gap, a text of exactly / more than the width, an SGR sequence.",
 		Gen: c20Gen,
 		Replay: func(d json.RawMessage) (Case, error) {
